@@ -106,6 +106,8 @@ let parse_end (toks : string list) : op =
     OEnd (z h, z now, envs)
   | _ -> failwith "end"
 
+let parse_coin = function d :: a :: tl -> ((z d, z a), tl) | _ -> failwith "coin"
+
 (* returns the op and the implementation's result class ("" when the line carries none) *)
 let parse_op (toks : string list) : op * string =
   match toks with
@@ -130,19 +132,38 @@ let parse_op (toks : string list) : op * string =
     let (ps, rest) = take (int_of_string n) rest in
     (OCancelAll (z a, z ow, L.map z ps), (match rest with [r] -> r | _ -> failwith "cancelall"))
   | ["cancelmm"; a; ow; p; res] -> (OCancelMM (z a, z ow, z p), res)
-  | ["deposit"; a; ow; p; x; y; res] -> (ODeposit (z a, z ow, z p, z x, z y), res)
-  | ["withdraw"; a; ow; p; pc; res] -> (OWithdraw (z a, z ow, z p, z pc), res)
-  | ["farm"; a; ow; p; amt; now; res] -> (OFarm (z a, z ow, z p, z amt, z now), res)
-  | ["unfarm"; a; ow; p; amt; res] -> (OUnfarm (z a, z ow, z p, z amt), res)
-  | ["depfarm"; a; ow; p; x; y; now; ax; ay; pc; res] -> (ODepositAndFarm (z a, z ow, z p, z x, z y, z now, z ax, z ay, z pc), res)
-  | ["unfarmwd"; a; ow; p; pc; x; y; res] -> (OUnfarmAndWithdraw (z a, z ow, z p, z pc, z x, z y), res)
+  | "deposit" :: a :: ow :: p :: n :: rest ->
+    let (cs, rest) = take_n (int_of_string n) parse_coin rest in
+    (ODeposit (z a, z ow, z p, cs), (match rest with [r] -> r | _ -> failwith "deposit"))
+  | ["withdraw"; a; ow; p; dn; pc; res] -> (OWithdraw (z a, z ow, z p, z dn, z pc), res)
+  | ["farm"; a; ow; p; dn; amt; now; res] -> (OFarm (z a, z ow, z p, z dn, z amt, z now), res)
+  | ["unfarm"; a; ow; p; dn; amt; res] -> (OUnfarm (z a, z ow, z p, z dn, z amt), res)
+  | "depfarm" :: a :: ow :: p :: n :: rest ->
+    let (cs, rest) = take_n (int_of_string n) parse_coin rest in
+    (match rest with
+     | [now; ax; ay; pc; res] -> (ODepositAndFarm (z a, z ow, z p, cs, z now, z ax, z ay, z pc), res)
+     | _ -> failwith "depfarm")
+  | ["unfarmwd"; a; ow; p; dn; pc; x; y; res] -> (OUnfarmAndWithdraw (z a, z ow, z p, z dn, z pc, z x, z y), res)
   | ["begin"] -> (OBegin, "")
   | "end" :: rest -> (parse_end rest, "")
   | _ -> failwith ("bad op: " ^ cat toks)
 
 (* ---------------------------------------------------------------------------------------------- *)
+let rec int_of_nat = function Datatypes.O -> 0 | Datatypes.S n -> 1 + int_of_nat n
+let two64 = z_of_string "18446744073709551616"
+
+(* one line of a shadow book: the order as it entered the engine (fresh) and what the implementation made of it *)
+type mo_row = { mkind : string; mid : string; mord : AMM.order; mopen : string; mpaid : string; mrecv : string }
+
+module LedTbl = Hashtbl.Make (struct
+    type t = acct * BinNums.coq_Z
+    let equal (a : t) (b : t) = a = b
+    let hash (k : t) = Hashtbl.hash_param 64 128 k
+  end)
+let tdiff = ref 0. and tprops = ref 0. and tstep = ref 0.
 let run_prop (prop : string) (path : string) =
-  let c04 = prop = "C04" in
+  let c04 = prop = "C04" and c05 = prop = "C05" and c06 = prop = "C06" and c07 = prop = "C07" in
+  let life_on = c07 || c05 in
   let lines = read_lines path in
   let cases = ref 0 and steps = ref 0 and nontrivial = ref 0 in
   let case = ref "" and step = ref 0 in
@@ -162,18 +183,285 @@ let run_prop (prop : string) (path : string) =
   let seen_fill = ref false and seen_end = ref false and seen_pool = ref false and seen_farm = ref false in
   let pending_mm : (string * string * string * string list) option ref = ref None in   (* app owner pair, ids listed before *)
   let cur_op = ref "" in
+  (* shadow matching of the coming EndBlocker *)
+  let mi_ids : (string, string list) Hashtbl.t = Hashtbl.create 16 in        (* app:pair -> ids handed to NewUserOrder *)
+  let shadow_pairs : (string, unit) Hashtbl.t = Hashtbl.create 16 in         (* app:pair with a shadow book *)
+  let shadow_fills : (string, string) Hashtbl.t = Hashtbl.create 64 in       (* app:pair:id -> "matched paid recv" *)
+  let shadow_kf : (string, unit) Hashtbl.t = Hashtbl.create 8 in             (* app:pair whose shadow book is inside kf_C05_1 *)
+  let app_nets : (string, BinNums.coq_Z list) Hashtbl.t = Hashtbl.create 8 in   (* app -> non-zero base nets of the batches applied so far *)
+  let shadow_env : (string, (batch_env * BinNums.coq_Z) list) Hashtbl.t = Hashtbl.create 8 in   (* app -> the engine's batches (ENV form) with their base net *)
+  let m_hdr : string list ref = ref [] and m_need = ref 0 and m_rows : mo_row list ref = ref [] in
+  let ex_flags : (string, string) Hashtbl.t = Hashtbl.create 8 in            (* app -> the implementation's executed flag *)
+  let model_flags : (string * string) list ref = ref [] in
+  let wfee : (string, BinNums.coq_Z) Hashtbl.t = Hashtbl.create 8 in
+  let cur_parsed : op option ref = ref None and cur_res = ref "" in
+  let seen_shadow_fill = ref false in
+  let reported : (string, unit) Hashtbl.t = Hashtbl.create 64 in
+  let case_mism0 = ref 0 in
   let geti tbl k = try Hashtbl.find tbl k with Not_found -> z0 in
   let rate_of a = geti rates (zs a) in
   let impl_z k = try z (Hashtbl.find impl k) with Not_found -> z0 in
   let end_case () =
     if !case <> "" then begin
       incr cases;
-      if (if c04 then !seen_pool && !seen_farm else !seen_fill && !seen_end) then incr nontrivial;
+      if (if c04 then !seen_pool && !seen_farm else if c06 then !seen_pool else if c05 then !seen_shadow_fill && !seen_end else !seen_fill && !seen_end) then incr nontrivial;
       Hashtbl.replace distinct (Digest.string (Buffer.contents sig_)) ()
     end in
   let pf ~pred ~kf ~detail = predfail ~case:!case ~step:!step ~pred ~kf ~detail in
   let orders_of tbl k = L.filter_map (fun ok -> try Some (Hashtbl.find known ok) with Not_found -> None) (try Hashtbl.find tbl k with Not_found -> []) in
   let pair_kf ap = if Hashtbl.mem nonconserving ap then "kf_C05_1_via_fills" else "none" in
+
+  let impl_order k = try Some (order_of_kv k (Hashtbl.find impl k)) with Not_found -> None in
+  let prev_order k = try Some (order_of_kv k (Hashtbl.find prev_changed k)) with Not_found -> impl_order k in
+
+  (* ------- one batch's fill of a stored order against what the engine is given for it ------- *)
+  let judge_fill ~(src : string) (k : string) (ob : order option) (m : BinNums.coq_Z) (p : BinNums.coq_Z) (r : BinNums.coq_Z) =
+    if life_on then
+      match ob with
+      | None -> ()
+      | Some o ->
+        bump ("eval:C05_life:" ^ src);
+        if not (holds_C05_life o m p r) then
+          pf ~pred:("holds_C05_life_" ^ src) ~kf:"none"
+            ~detail:(Printf.sprintf "%s_remaining_before=%s_open_before=%s_matched=%s_paid=%s_received=%s" k (zs o.o_rem) (zs o.o_open) (zs m) (zs p) (zs r)) in
+
+  (* ------- a complete shadow book: replay on the matching-engine model, judge the implementation's fills ------- *)
+  let process_shadow () =
+    (match !m_hdr with
+     | [a; p; has; lp; res; matched; price; qcd; _n] ->
+       let ap = a ^ ":" ^ p in
+       let rows = L.rev !m_rows in
+       Hashtbl.replace shadow_pairs ap ();
+       bump "shadow:books";
+       if res = "panic" then pf ~pred:"matching_no_panic" ~kf:"none" ~detail:("keeper.Match_panicked_pair=" ^ ap);
+       let os0 = L.mapi (fun i (r : mo_row) -> { r.mord with AMM.o_id = nat_of_int i }) rows in
+       let os1 = L.map2 (fun (o : AMM.order) (r : mo_row) -> { o with AMM.o_open = z r.mopen; AMM.o_paid = z r.mpaid; AMM.o_recv = z r.mrecv }) os0 rows in
+       let imatched = bool_of_tok matched in
+       (* the implementation's fills of the user orders; judged against the stored record *)
+       L.iter2 (fun (o : AMM.order) (r : mo_row) ->
+           if r.mkind = "u" then begin
+             let m = zsub o.AMM.o_amt (z r.mopen) in
+             if not (zeq m z0) || not (zeq (z r.mpaid) z0) || not (zeq (z r.mrecv) z0) then begin
+               seen_shadow_fill := true;
+               let k = Printf.sprintf "ord:%s:%s" ap r.mid in
+               Hashtbl.replace shadow_fills (ap ^ ":" ^ r.mid) (cat [zs m; r.mpaid; r.mrecv]);
+               judge_fill ~src:"engine" k (impl_order k) m (z r.mpaid) (z r.mrecv)
+             end
+           end) os0 rows;
+       (* the engine's result in the ENV form of the model: user fills in book order, each pool's net reserve change, dust *)
+       if res = "ok" && imatched then begin
+         let fills = L.concat (L.map2 (fun (o : AMM.order) (r : mo_row) ->
+             if r.mkind = "u" && not (zeq (zsub o.AMM.o_amt (z r.mopen)) z0 && zeq (z r.mpaid) z0 && zeq (z r.mrecv) z0)
+             then [(((z r.mid, zsub o.AMM.o_amt (z r.mopen)), z r.mpaid), z r.mrecv)] else []) os0 rows) in
+         let flows : (string, BinNums.coq_Z * BinNums.coq_Z) Hashtbl.t = Hashtbl.create 8 in
+         let order = ref [] in
+         L.iter2 (fun (o : AMM.order) (r : mo_row) ->
+             if r.mkind = "p" && not (zeq (z r.mpaid) z0 && zeq (z r.mrecv) z0) then begin
+               let (dq, db) = (try Hashtbl.find flows r.mid with Not_found -> (order := r.mid :: !order; (z0, z0))) in
+               let (dq, db) = (match o.AMM.o_dir with
+                   | AMM.Buy -> (zsub dq (z r.mpaid), zadd db (z r.mrecv))      (* pays quote, receives base *)
+                   | AMM.Sell -> (zadd dq (z r.mrecv), zsub db (z r.mpaid))) in
+               Hashtbl.replace flows r.mid (dq, db)
+             end) os0 rows;
+         let pools = L.map (fun id -> let (dq, db) = Hashtbl.find flows id in ((z id, dq), db)) (L.rev !order) in
+         let b = { b_pair = z p; b_matched = true; b_price = z price; b_fills = fills; b_pools = pools; b_dust = z qcd } in
+         let buy_of id = L.exists2 (fun (o : AMM.order) (r : mo_row) -> r.mkind = "u" && zeq (z r.mid) id && o.AMM.o_dir = AMM.Buy) os0 rows in
+         let bn = batch_base_net buy_of b in
+         Hashtbl.replace shadow_env a ((b, bn) :: (try Hashtbl.find shadow_env a with Not_found -> []))
+       end;
+       if res = "ok" && c05 then begin
+         let dom_p, model =
+           if bool_of_tok has then (z lp, Some (AMM.run_match os0 (z lp)))
+           else if imatched then (z price, Some (AMM.run_single_price os0 (z price)))
+           else (zi 1, None) in
+         (match model with
+          | None -> bump "shadow:no_last_price_unmatched"
+          | Some _ when not (AMM.dom_ok os0 dom_p) -> bump "shadow:out_of_domain"
+          | Some None -> mismatch ~case:!case ~step:!step ~field:("shadow:" ^ ap ^ ":result") ~model:"panic" ~impl:"ok"
+          | Some (Some (mr : AMM.mresult)) ->
+            bump (if mr.AMM.r_matched then "shadow:matched" else "shadow:unmatched");
+            if mr.AMM.r_under then begin bump "shadow:kf_C05_1"; Hashtbl.replace shadow_kf ap () end;
+            let fld f = "shadow:" ^ ap ^ ":" ^ f in
+            if mr.AMM.r_matched <> imatched then
+              mismatch ~case:!case ~step:!step ~field:(fld "matched") ~model:(tok_of_bool mr.AMM.r_matched) ~impl:matched;
+            if mr.AMM.r_matched && imatched then begin
+              if zs mr.AMM.r_price <> price then mismatch ~case:!case ~step:!step ~field:(fld "matchPrice") ~model:(zs mr.AMM.r_price) ~impl:price;
+              let q = zs (AMM.fills_qdiff mr.AMM.r_fills) in
+              if q <> qcd then mismatch ~case:!case ~step:!step ~field:(fld "quoteCoinDiff") ~model:q ~impl:qcd
+            end;
+            L.iteri (fun i ((mo : AMM.order), (r : mo_row)) ->
+                let chk f a b = if a <> b then mismatch ~case:!case ~step:!step ~field:(fld (Printf.sprintf "%s%s.%s" r.mkind r.mid f)) ~model:a ~impl:b in
+                ignore i;
+                chk "open" (zs mo.AMM.o_open) r.mopen; chk "paid" (zs mo.AMM.o_paid) r.mpaid; chk "recv" (zs mo.AMM.o_recv) r.mrecv)
+              (L.combine mr.AMM.r_orders rows);
+            (* C05's predicates on the implementation's book after matching *)
+            if c05 then begin
+              let fs = mr.AMM.r_fills in
+              let cls = if mr.AMM.r_under then "kf_C05_1" else "none" in
+              bump "eval:C05_keeper_book";
+              let base_ok = AMM.holds_C05_base os0 os1 in
+              if not base_ok then
+                pf ~pred:"holds_C05_base" ~kf:cls ~detail:(Printf.sprintf "pair=%s_buyers_received=%s_sellers_paid=%s" ap (zs (AMM.base_bought os0 os1)) (zs (AMM.base_sold os0 os1)));
+              if not (AMM.holds_C05_dust os0 os1 (zi (L.length fs))) then
+                pf ~pred:"holds_C05_dust" ~kf:(if base_ok then "none" else cls) ~detail:("pair=" ^ ap);
+              if not (AMM.holds_C05_bounds os1) then pf ~pred:"holds_C05_bounds" ~kf:"none" ~detail:("pair=" ^ ap ^ "_order_overfilled_or_overpaid");
+              if not (AMM.holds_C05_limit os0 os1 fs) then pf ~pred:"holds_C05_limit" ~kf:"none" ~detail:("pair=" ^ ap);
+              if not (AMM.holds_C05_positive os1) then pf ~pred:"holds_C05_positive" ~kf:"none" ~detail:("pair=" ^ ap);
+              if imatched && not (AMM.holds_C05_qdiff os0 os1 (z qcd)) then pf ~pred:"holds_C05_qdiff" ~kf:"none" ~detail:("pair=" ^ ap)
+            end)
+       end
+     | _ -> ());
+    m_hdr := []; m_rows := []; m_need := 0 in
+
+  (* ------- after an EndBlocker: executed flags, the applied fills against the shadow, the order books ------- *)
+  let check_end () =
+    match !cur_parsed with
+    | Some (OEnd (_, now, envs)) ->
+      (* was each app's batch executed?  a rolled-back batch (error or recovered panic) is never expected *)
+      L.iter (fun (a, mf) ->
+          match (try Some (Hashtbl.find ex_flags a) with Not_found -> None) with
+          | Some f when f <> "2" && mf <> "2" && mf <> "3" ->
+            bump ("endblock:executed:" ^ f);
+            if f <> mf then mismatch ~case:!case ~step:!step ~field:("end:app" ^ a ^ ":batch_executed") ~model:mf ~impl:f;
+            if f = "0" then begin
+              (* base nets of the engine's batches of this app: this block's, and those applied at earlier blocks *)
+              let nets = L.map snd (try Hashtbl.find shadow_env a with Not_found -> []) @ (try Hashtbl.find app_nets a with Not_found -> []) in
+              pf ~pred:"endblock_batch_executed" ~kf:(if kf_C05_2_stall nets then "kf_C05_2_stall" else "none")
+                ~detail:(Printf.sprintf "app=%s_batch_rolled_back_orders_and_requests_stay_engine_base_nets=%s" a (S.concat "," (L.map zs nets)))
+            end
+          | _ -> ()) !model_flags;
+      (* the orders put on the book: model (on_book over the stored records before the block) vs NewUserOrder calls *)
+      Hashtbl.iter (fun ap () ->
+          let ids = L.sort compare (L.map int_of_string (try Hashtbl.find mi_ids ap with Not_found -> [])) in
+          let expect = Hashtbl.fold (fun k _ acc ->
+              match S.split_on_char ':' k with
+              | ["ord"; a; p; id] when a ^ ":" ^ p = ap ->
+                (match prev_order k with Some o when on_book now o -> int_of_string id :: acc | _ -> acc)
+              | _ -> acc) known [] in
+          (* orders deleted in the meantime are no longer among the records: restrict to those stored before the block *)
+          let expect = L.sort compare (L.filter (fun id ->
+              let k = Printf.sprintf "ord:%s:%d" ap id in Hashtbl.mem impl k || Hashtbl.mem prev_changed k) expect) in
+          if ids <> expect then
+            mismatch ~case:!case ~step:!step ~field:("end:" ^ ap ^ ":book_orders")
+              ~model:(S.concat "," (L.map string_of_int expect)) ~impl:(S.concat "," (L.map string_of_int ids))) shadow_pairs;
+      (* the fills applied to the records (ENV) are the engine's fills (shadow) *)
+      L.iter (fun (e : app_env) ->
+          let a = zs e.e_app in
+          if (try Hashtbl.find ex_flags a with Not_found -> "") = "1" then begin
+            let applied = Hashtbl.create 16 in
+            L.iter (fun (b : batch_env) ->
+                let ap = a ^ ":" ^ zs b.b_pair in
+                L.iter (fun (((id, m), p), r) ->
+                    let key = ap ^ ":" ^ zs id in
+                    Hashtbl.replace applied key ();
+                    let v = cat [zs m; zs p; zs r] in
+                    let sv = (try Hashtbl.find shadow_fills key with Not_found -> "none") in
+                    if Hashtbl.mem shadow_pairs ap && sv <> v then
+                      mismatch ~case:!case ~step:!step ~field:("end:" ^ key ^ ":applied_fill_vs_engine") ~model:(S.map (fun c -> if c = ' ' then '_' else c) sv) ~impl:(S.map (fun c -> if c = ' ' then '_' else c) v);
+                    let k = "ord:" ^ key in
+                    judge_fill ~src:"applied" k (prev_order k) m p r) b.b_fills) e.e_batches;
+            Hashtbl.iter (fun key v ->
+                match S.split_on_char ':' key with
+                | [a2; _; _] when a2 = a && not (Hashtbl.mem applied key) ->
+                  mismatch ~case:!case ~step:!step ~field:("end:" ^ key ^ ":applied_fill_vs_engine") ~model:(S.map (fun c -> if c = ' ' then '_' else c) v) ~impl:"none"
+                | _ -> ()) shadow_fills
+          end) envs;
+      Hashtbl.reset mi_ids; Hashtbl.reset shadow_pairs; Hashtbl.reset shadow_fills; Hashtbl.reset ex_flags; Hashtbl.reset shadow_env; model_flags := []
+    | _ -> () in
+
+  (* ------- C06 through the keeper: reserves and share supply of EVERY pool, after EVERY step ------- *)
+  let check_pools () =
+    let pst_of get a pl =
+      match (try tokens (get (Printf.sprintf "pool:%s:%s" a pl)) with Not_found -> []) with
+      | pr :: ranged :: _ ->
+        (match (try tokens (Hashtbl.find impl (Printf.sprintf "pair:%s:%s" a pr)) with Not_found -> []) with
+         | base :: quote :: _ ->
+           let g k = (try z (get k) with Not_found -> z0) in
+           Some ({ Pool.p_rx = g (Printf.sprintf "bal:res.%s.%s:%s" a pl quote); Pool.p_ry = g (Printf.sprintf "bal:res.%s.%s:%s" a pl base);
+                   Pool.p_ps = g ("sup:" ^ zs (pool_denom (z a) (z pl))) }, bool_of_tok ranged, base, quote)
+         | _ -> None)
+      | _ -> None in
+    let before_get k = (try Hashtbl.find prev_changed k with Not_found -> Hashtbl.find impl k) in
+    let show (s : Pool.pstate) = Printf.sprintf "%s/%s/%s" (zs s.Pool.p_rx) (zs s.Pool.p_ry) (zs s.Pool.p_ps) in
+    let pools = Hashtbl.fold (fun k _ acc -> match S.split_on_char ':' k with ["pool"; a; pl] -> (a, pl) :: acc | _ -> acc) impl [] in
+    L.iter (fun (a, pl) ->
+        let created = Hashtbl.mem changed (Printf.sprintf "pool:%s:%s" a pl) && not (Hashtbl.mem prev_changed (Printf.sprintf "pool:%s:%s" a pl)) in
+        if not created then
+          match pst_of before_get a pl, pst_of (Hashtbl.find impl) a pl with
+          | Some (s0, _, base, quote), Some (s1, _, _, _) ->
+            let name = a ^ ":" ^ pl in
+            let fee = (try Hashtbl.find wfee a with Not_found -> z0) in
+            (* the requests executed on THIS pool in this step, in execution order: (kind, offered x, offered y / pc, results) *)
+            let cur = ref s0 and swapped = ref false in
+            let value_step (sa : Pool.pstate) (sb : Pool.pstate) what =
+              bump "eval:C06_value_keeper";
+              if not (Pool.holds_C06_value sa sb) then
+                pf ~pred:"holds_C06_value_keeper" ~kf:"none" ~detail:(Printf.sprintf "pool=%s_%s_before=%s_after=%s" name what (show sa) (show sb)) in
+            let do_dep x y ax ay pc st =
+              let s = !cur in
+              if st = "2" then begin
+                bump "eval:C06_deposit_keeper";
+                (match Pool.deposit s.Pool.p_rx s.Pool.p_ry s.Pool.p_ps x y with
+                 | Base.Ok ((max, may), mpc) ->
+                   if not (zeq max ax && zeq may ay && zeq mpc pc) then
+                     mismatch ~case:!case ~step:!step ~field:("pool:" ^ name ^ ":deposit") ~model:(cat [zs max; zs may; zs mpc] |> S.map (fun c -> if c = ' ' then '_' else c))
+                       ~impl:(cat [zs ax; zs ay; zs pc] |> S.map (fun c -> if c = ' ' then '_' else c))
+                 | _ -> mismatch ~case:!case ~step:!step ~field:("pool:" ^ name ^ ":deposit") ~model:"panic" ~impl:"ok");
+                if not (Pool.holds_C06_deposit s.Pool.p_rx s.Pool.p_ry s.Pool.p_ps x y ax ay pc) then
+                  pf ~pred:"holds_C06_deposit_keeper" ~kf:"none" ~detail:(Printf.sprintf "pool=%s_state=%s_offered=%s/%s_accepted=%s/%s_minted=%s" name (show s) (zs x) (zs y) (zs ax) (zs ay) (zs pc));
+                let s' = { Pool.p_rx = zadd s.Pool.p_rx ax; Pool.p_ry = zadd s.Pool.p_ry ay; Pool.p_ps = zadd s.Pool.p_ps pc } in
+                value_step s s' "deposit"; cur := s'
+              end in
+            let do_wd pc x y st =
+              let s = !cur in
+              if st = "2" then begin
+                bump "eval:C06_withdraw_keeper";
+                (match Pool.withdraw s.Pool.p_rx s.Pool.p_ry s.Pool.p_ps pc fee with
+                 | Base.Ok (mx, my) ->
+                   if not (zeq mx x && zeq my y) then
+                     mismatch ~case:!case ~step:!step ~field:("pool:" ^ name ^ ":withdraw") ~model:(zs mx ^ "_" ^ zs my) ~impl:(zs x ^ "_" ^ zs y)
+                 | _ -> mismatch ~case:!case ~step:!step ~field:("pool:" ^ name ^ ":withdraw") ~model:"panic" ~impl:"ok");
+                if not (Pool.holds_C06_withdraw s.Pool.p_rx s.Pool.p_ry s.Pool.p_ps pc fee x y) then
+                  pf ~pred:"holds_C06_withdraw_keeper" ~kf:"none" ~detail:(Printf.sprintf "pool=%s_state=%s_shares=%s_paid=%s/%s" name (show s) (zs pc) (zs x) (zs y));
+                let s' = { Pool.p_rx = zsub s.Pool.p_rx x; Pool.p_ry = zsub s.Pool.p_ry y; Pool.p_ps = zsub s.Pool.p_ps pc } in
+                value_step s s' "withdraw"; cur := s'
+              end in
+            let amt_of cs d = L.fold_left (fun acc (dn, am) -> if zeq dn (z d) then zadd acc am else acc) z0 cs in
+            (match !cur_parsed with
+             | Some (OEnd (_, _, envs)) ->
+               L.iter (fun (e : app_env) ->
+                   if zs e.e_app = a then begin
+                     L.iter (fun (b : batch_env) ->
+                         L.iter (fun ((pid, dq), db) ->
+                             if zs pid = pl then begin
+                               swapped := true;
+                               cur := { !cur with Pool.p_rx = zadd (!cur).Pool.p_rx dq; Pool.p_ry = zadd (!cur).Pool.p_ry db }
+                             end) b.b_pools) e.e_batches;
+                     L.iter (fun ((((pid, id), ax), ay), pc) ->
+                         if zs pid = pl then
+                           match tokens (try Hashtbl.find impl (Printf.sprintf "dep:%s:%s:%s" a pl (zs id)) with Not_found -> "") with
+                           | [_; x; y; _; _; _; st] -> do_dep (z x) (z y) ax ay pc st
+                           | _ -> ()) e.e_deps;
+                     L.iter (fun (((pid, id), x), y) ->
+                         if zs pid = pl then
+                           match tokens (try Hashtbl.find impl (Printf.sprintf "wd:%s:%s:%s" a pl (zs id)) with Not_found -> "") with
+                           | [_; pc; _; _; st] -> do_wd (z pc) x y st
+                           | _ -> ()) e.e_wds
+                   end) envs
+             | Some (ODepositAndFarm (oa, _, op, cs, _, ax, ay, pc)) when !cur_res = "ok" && zs oa = a && zs op = pl ->
+               do_dep (amt_of cs quote) (amt_of cs base) ax ay pc "2"
+             | Some (OUnfarmAndWithdraw (oa, _, op, _, pc, x, y)) when !cur_res = "ok" && zs oa = a && zs op = pl ->
+               do_wd pc x y (if zeq x z0 && zeq y z0 then "3" else "2")     (* nothing to pay out: the request fails, the shares go back *)
+             | _ -> ());
+            (* what was observed after the step is exactly what the executed requests (and swaps) explain;
+               a step that executes nothing on the pool leaves it untouched *)
+            bump "eval:C06_untouched_keeper";
+            if not (Pool.holds_C06_untouched !cur s1) then
+              pf ~pred:"holds_C06_untouched_keeper" ~kf:"none"
+                ~detail:(Printf.sprintf "pool=%s_op=%s_before=%s_explained=%s_observed=%s" name !cur_op (show s0) (show !cur) (show s1));
+            (* reserves per share over the whole step, when no swap went through the pool *)
+            if not !swapped then value_step s0 s1 ("step_" ^ !cur_op)
+          | _ -> ()) pools in
 
   (* ------- property predicates on the implementation's observation, after each step ------- *)
   let check_props () =
@@ -192,7 +480,7 @@ let run_prop (prop : string) (path : string) =
         | _ -> ()) changed;
     (* C07: every trader account's balance change is explained by the records of its orders *)
     Hashtbl.iter (fun n () ->
-        if not c04 && int_of_string n >= 50 && int_of_string n <> 90 then begin
+        if c07 && int_of_string n >= 50 && int_of_string n <> 90 then begin
           let os = orders_of by_owner n in
           L.iter (fun d ->
               let bk = Printf.sprintf "bal:u.%s:%s" n d in
@@ -216,12 +504,12 @@ let run_prop (prop : string) (path : string) =
                  if Hashtbl.mem impl balk then begin
                    let balance = impl_z balk in
                    let net = geti fills_net (ap ^ ":" ^ d) in
-                   if not c04 then bump "eval:C07_escrow";
+                   if c07 then bump "eval:C07_escrow";
                    (* exact decomposition, given the recorded fills *)
-                   if not c04 && not (holds_C07_escrow (rate_of (z a)) os (z d) balance net) then
+                   if c07 && not (holds_C07_escrow (rate_of (z a)) os (z d) balance net) then
                      pf ~pred:"holds_C07_escrow_decomposition" ~kf:"none" ~detail:(Printf.sprintf "pair=%s_denom=%s_balance=%s_fills_net=%s" ap d (zs balance) (zs net));
                    (* nothing of a terminated order remains: relative to conservation of the recorded fills *)
-                   if not c04 && not (holds_C07_escrow (rate_of (z a)) os (z d) balance z0) then
+                   if c07 && not (holds_C07_escrow (rate_of (z a)) os (z d) balance z0) then
                      pf ~pred:"holds_C07_nothing_left" ~kf:(pair_kf ap) ~detail:(Printf.sprintf "pair=%s_denom=%s_balance=%s_fills_net=%s" ap d (zs balance) (zs net));
                    (* C04: escrow >= remaining offer coins of the live orders *)
                    let req = L.fold_left (fun acc (o : order) -> if zeq o.o_odenom (z d) && not (is_term o.o_status) then zadd acc o.o_rem else acc) z0 live in
@@ -230,7 +518,7 @@ let run_prop (prop : string) (path : string) =
                      pf ~pred:"holds_C04_pair_escrow" ~kf:(pair_kf ap) ~detail:(Printf.sprintf "pair=%s_denom=%s_balance=%s_required=%s" ap d (zs balance) (zs req))
                  end;
                  let feek = Printf.sprintf "bal:fee.%s.%s:%s" a p d in
-                 if not c04 && Hashtbl.mem impl feek then begin
+                 if c07 && Hashtbl.mem impl feek then begin
                    bump "eval:C07_feecoll";
                    if not (holds_C07_feecoll (rate_of (z a)) os (z d) (impl_z feek)) then
                      pf ~pred:"holds_C07_feecoll" ~kf:"none" ~detail:(Printf.sprintf "pair=%s_denom=%s_balance=%s" ap d (Hashtbl.find impl feek))
@@ -239,7 +527,7 @@ let run_prop (prop : string) (path : string) =
         | _ -> ()) prs;
     (* C07: CancelMM / MM replace cancels every previously indexed MM order *)
     (match !pending_mm with
-     | Some (a, _ow, p, ids) when not c04 ->
+     | Some (a, _ow, p, ids) when c07 ->
        let sts = L.filter_map (fun id -> try Some (order_of_kv (Printf.sprintf "ord:%s:%s:%s" a p id) (Hashtbl.find impl (Printf.sprintf "ord:%s:%s:%s" a p id))).o_status
                                 with Not_found -> None) ids in
        bump "eval:C07_mm";
@@ -291,8 +579,14 @@ let run_prop (prop : string) (path : string) =
           if not (holds_C04_disabled sup (bool_of_tok dis)) then
             pf ~pred:"holds_C04_disabled" ~kf:"none" ~detail:(Printf.sprintf "pool=%s:%s_supply=0_not_disabled" a pl);
           (* supply change of this step *)
-          if Hashtbl.mem changed ("sup:" ^ d) then begin
-            let before = (try z (Hashtbl.find prev_changed ("sup:" ^ d)) with Not_found -> z0) in
+          let req_done = ref false in
+          Hashtbl.iter (fun k2 () ->
+              match S.split_on_char ':' k2 with
+              | [("dep" | "wd"); a2; p2; _] when a2 = a && p2 = pl ->
+                (match L.rev (tokens (try Hashtbl.find impl k2 with Not_found -> "")) with "2" :: _ -> req_done := true | _ -> ())
+              | _ -> ()) changed;
+          if Hashtbl.mem changed ("sup:" ^ d) || !req_done then begin
+            let before = (try z (Hashtbl.find prev_changed ("sup:" ^ d)) with Not_found -> if Hashtbl.mem changed ("sup:" ^ d) then z0 else sup) in
             let created = if not (Hashtbl.mem prev_changed k) && Hashtbl.mem changed k then sup else z0 in
             let minted = ref z0 and burned = ref z0 in
             Hashtbl.iter (fun k2 () ->
@@ -316,44 +610,112 @@ let run_prop (prop : string) (path : string) =
                 ~detail:(Printf.sprintf "pool=%s:%s_op=%s_before=%s_after=%s_created=%s_minted=%s_burned=%s" a pl !cur_op (zs before) (zs sup) (zs created) (zs !minted) (zs !burned))
           end
         | _ -> ()) impl
-    end
+    end;
+    check_end ();
+    if c06 then check_pools ()
   in
 
   (* ------- diff of the full projection, after each step ------- *)
   let diff () =
     let mk = model_kv !model in
     let seen = Hashtbl.create 256 in
+    (* a difference that persists (the model does not follow a step the implementation should not have taken) is
+       reported once per case and key, so that the predicates keep judging the implementation's later states *)
+    let mismatch ~case ~step ~field ~model ~impl =
+      let key = (match S.index_opt field ':' with Some i -> S.sub field (i + 1) (S.length field - i - 1) | None -> field) ^ "|" ^ model ^ "|" ^ impl in
+      if not (Hashtbl.mem reported key) then begin Hashtbl.replace reported key (); mismatch ~case ~step ~field ~model ~impl end in
     L.iter (fun (k, v) ->
         Hashtbl.replace seen k ();
         match (try Some (Hashtbl.find impl k) with Not_found -> None) with
         | Some iv -> if iv <> v then mismatch ~case:!case ~step:!step ~field:(!cur_op ^ ":" ^ k) ~model:(S.map (fun c -> if c = ' ' then '_' else c) v) ~impl:(S.map (fun c -> if c = ' ' then '_' else c) iv)
         | None -> mismatch ~case:!case ~step:!step ~field:(!cur_op ^ ":" ^ k) ~model:"present" ~impl:"absent") mk;
+    let flat : BinNums.coq_Z LedTbl.t = LedTbl.create 512 in
     Hashtbl.iter (fun k v ->
         if is_record_key k then begin
           if not (Hashtbl.mem seen k) then mismatch ~case:!case ~step:!step ~field:(!cur_op ^ ":" ^ k) ~model:"absent" ~impl:"present"
         end else
           match S.split_on_char ':' k with
           | ["bal"; acct; d] ->
-            let mv = zs ((!model).led (acct_of_tok acct) (z d)) in
+            let ak = (acct_of_tok acct, z d) in
+            let mz = (!model).led (fst ak) (snd ak) in
+            LedTbl.replace flat ak mz;
+            let mv = zs mz in
             if mv <> v then mismatch ~case:!case ~step:!step ~field:(!cur_op ^ ":" ^ k) ~model:mv ~impl:v
-          | _ -> ()) impl
+          | _ -> ()) impl;
+    (* the model's ledger is a chain of closures, one per transfer; re-base it on a table of the watched balances
+       (the same function, extensionally) so that look-ups do not slow down with the length of the history *)
+    let old = (!model).led in
+    model := { !model with led = (fun a d -> match LedTbl.find_opt flat (a, d) with Some v -> v | None -> old a d) }
   in
 
   L.iter (fun line ->
       match tokens line with
       | "case" :: id :: _ ->
         end_case ();
-        case := id; step := 0; model := init; dead := false;
+        case := id; step := 0; model := init; dead := false; case_mism0 := !mismatches;
         Hashtbl.reset impl; Hashtbl.reset known; Hashtbl.reset by_owner; Hashtbl.reset by_pair; Hashtbl.reset funded; Hashtbl.reset rates;
         Hashtbl.reset fills_net; Hashtbl.reset nonconserving; Hashtbl.reset changed; Hashtbl.reset prev_changed;
-        Buffer.clear sig_; seen_fill := false; seen_end := false; seen_pool := false; seen_farm := false; pending_mm := None
+        Buffer.clear sig_; seen_fill := false; seen_end := false; seen_pool := false; seen_farm := false; pending_mm := None;
+        Hashtbl.reset mi_ids; Hashtbl.reset shadow_pairs; Hashtbl.reset shadow_fills; Hashtbl.reset shadow_kf; Hashtbl.reset ex_flags;
+        Hashtbl.reset shadow_env; Hashtbl.reset app_nets; Hashtbl.reset wfee; Hashtbl.reset reported; model_flags := []; m_hdr := []; m_rows := []; m_need := 0; cur_parsed := None; cur_res := ""; seen_shadow_fill := false
       | "op" :: "endpanic" :: _ -> pf ~pred:"endblocker_no_panic" ~kf:"none" ~detail:"EndBlocker_panicked"
+      | ["wfee"; a; r] -> Hashtbl.replace wfee a (z r)
+      | ["ex"; a; f] -> Hashtbl.replace ex_flags a f
+      | ["mi"; a; p; id; d; price; amt; offer; batch] when not !dead ->
+        let ap = a ^ ":" ^ p in
+        Hashtbl.replace mi_ids ap (id :: (try Hashtbl.find mi_ids ap with Not_found -> []));
+        (* the amm order NewUserOrder built against the model's construction from the stored record *)
+        let k = Printf.sprintf "ord:%s:%s" ap id in
+        (match impl_order k with
+         | None -> mismatch ~case:!case ~step:!step ~field:("NewUserOrder:" ^ k) ~model:"no_record" ~impl:"order"
+         | Some o ->
+           let ai = user_order_amm o in
+           bump "eval:NewUserOrder";
+           let chk f a b =
+             let fld = Printf.sprintf "NewUserOrder:%s:%s" k f in
+             if a <> b && not (Hashtbl.mem reported fld) then begin
+               Hashtbl.replace reported fld (); mismatch ~case:!case ~step:!step ~field:fld ~model:a ~impl:b end in
+           chk "direction" (if ai.ai_buy then "B" else "S") d;
+           chk "price" (zs ai.ai_price) price;
+           chk "amount" (zs ai.ai_amt) amt;
+           chk "offer_coin_bound" (zs ai.ai_offer) offer;
+           chk "batch" (zs ai.ai_batch) batch)
+      | "m" :: hdr when not !dead ->
+        m_hdr := hdr; m_rows := [];
+        m_need := (match L.rev hdr with n :: _ -> int_of_string n | [] -> 0);
+        if !m_need = 0 then process_shadow ()
+      | ["mo"; kind; id; d; price; amt; offer; batch; op; paid; recv] when not !dead && !m_hdr <> [] ->
+        let key = if kind = "u" then z id else zadd two64 (z id) in
+        let o = { AMM.o_id = Datatypes.O; AMM.o_dir = (if d = "B" then AMM.Buy else AMM.Sell); AMM.o_price = z price; AMM.o_amt = z amt;
+                  AMM.o_offer = z offer; AMM.o_open = z amt; AMM.o_paid = z0; AMM.o_recv = z0; AMM.o_batch = z batch; AMM.o_key = key } in
+        m_rows := { mkind = kind; mid = id; mord = o; mopen = op; mpaid = paid; mrecv = recv } :: !m_rows;
+        decr m_need;
+        if !m_need = 0 then process_shadow ()
       | "op" :: toks when not !dead ->
         incr step; incr steps;
         Hashtbl.reset changed; Hashtbl.reset prev_changed;
         let (o, res) = parse_op toks in
+        (* an app whose batch the implementation rolled back shows no fills in its records: the model is given the
+           engine's fills instead (what ExecuteMatching computed before ApplyMatchResult failed) and must roll back too *)
+        let o = (match o with
+            | OEnd (h, now, envs) ->
+              let apps_model = L.map (fun (a, _) -> zs a) (!model).apps in
+              let have = L.map (fun (e : app_env) -> zs e.e_app) envs in
+              let envs = envs @ L.filter_map (fun a -> if L.mem a have then None else Some { e_app = z a; e_batches = []; e_deps = []; e_wds = [] }) apps_model in
+              OEnd (h, now, L.map (fun (e : app_env) ->
+                  let a = zs e.e_app in
+                  if (try Hashtbl.find ex_flags a with Not_found -> "") = "0" && Hashtbl.mem shadow_env a
+                  then begin bump "end:rolled_back:engine_fills_as_env"; { e with e_batches = L.rev_map fst (Hashtbl.find shadow_env a) } end
+                  else e) envs)
+            | o -> o) in
         let kind = L.hd toks in
-        cur_op := kind;
+        cur_op := kind; cur_parsed := Some o; cur_res := res;
+        (match o with
+         | OEnd (h, now, envs) ->
+           let (s_tr, flags) = end_block_trace h now envs !model in
+           ignore s_tr;
+           model_flags := L.map (fun (a, f) -> (zs a, zs f)) flags
+         | _ -> ());
         Buffer.add_string sig_ (kind ^ res ^ ";");
         if res <> "" then bump ("op:" ^ kind ^ ":" ^ res) else bump ("op:" ^ kind);
         (* bookkeeping from the inputs *)
@@ -362,8 +724,9 @@ let run_prop (prop : string) (path : string) =
          | OFund (w, d, a) -> let k = zs w ^ ":" ^ zs d in Hashtbl.replace funded k (zadd (geti funded k) a)
          | OEnd (_, _, envs) ->
            L.iter (fun (e : app_env) ->
+               let applied = (try Hashtbl.find ex_flags (zs e.e_app) with Not_found -> "") <> "0" in   (* a rolled-back batch applied nothing *)
                L.iter (fun (b : batch_env) ->
-                   if b.b_matched then begin
+                   if b.b_matched && applied then begin
                      let ap = zs e.e_app ^ ":" ^ zs b.b_pair in
                      let buy_of id = (try (Hashtbl.find known (Printf.sprintf "ord:%s:%s" ap (zs id))).o_buy with Not_found -> false) in
                      let bn = batch_base_net buy_of b and qn = batch_quote_net buy_of b in
@@ -374,7 +737,10 @@ let run_prop (prop : string) (path : string) =
                         Hashtbl.replace fills_net (ap ^ ":" ^ quote) (zadd (geti fills_net (ap ^ ":" ^ quote)) qn)
                       | _ -> ());
                      bump "batch:matched";
-                     if kf_C05_1_via_fills bn then begin Hashtbl.replace nonconserving ap (); bump "batch:base_not_conserved" end;
+                     if kf_C05_1_via_fills bn then begin
+                       Hashtbl.replace nonconserving ap (); bump "batch:base_not_conserved";
+                       Hashtbl.replace app_nets (zs e.e_app) (bn :: (try Hashtbl.find app_nets (zs e.e_app) with Not_found -> []))
+                     end;
                      if not (zeq qn z0) then bump "batch:quote_net_nonzero"
                    end) e.e_batches;
                if e.e_deps <> [] || e.e_wds <> [] then seen_pool := true) envs
@@ -389,14 +755,14 @@ let run_prop (prop : string) (path : string) =
            let k = Printf.sprintf "ord:%s:%s:%s" (zs a) (zs p) (zs id) in
            (match (try Some (order_of_kv k (Hashtbl.find impl k)) with Not_found -> None),
                   (try tokens (Hashtbl.find impl (Printf.sprintf "pair:%s:%s" (zs a) (zs p))) with Not_found -> []) with
-            | Some od, [_; _; _; _; _; batch] when not c04 && zeq od.o_owner ow && not (zeq od.o_status (zi 5)) && not (zeq od.o_batch (z batch)) ->
+            | Some od, [_; _; _; _; _; batch] when c07 && zeq od.o_owner ow && not (zeq od.o_status (zi 5)) && not (zeq od.o_batch (z batch)) ->
               bump "eval:C07_cancellable";
               if res <> "ok" then pf ~pred:"holds_C07_cancellable" ~kf:(pair_kf (zs a ^ ":" ^ zs p)) ~detail:("cancel_refused_" ^ k)
             | _ -> ())
          | OFarm _ | OUnfarm _ | ODepositAndFarm _ | OUnfarmAndWithdraw _ -> if res = "ok" then seen_farm := true
          | OBegin -> seen_end := true
          | _ -> ());
-        (match Liquidity.step !model o with
+        (match (let t0 = Sys.time () in let r = Liquidity.step !model o in tstep := !tstep +. (Sys.time () -. t0); r) with
          | Base.Ok s' ->
            if res <> "" && res <> "ok" then mismatch ~case:!case ~step:!step ~field:(kind ^ ":result") ~model:"ok" ~impl:res;
            if res = "" || res = "ok" then model := s'
@@ -407,9 +773,13 @@ let run_prop (prop : string) (path : string) =
            if res <> "panic" then mismatch ~case:!case ~step:!step ~field:(kind ^ ":result") ~model:"panic" ~impl:res);
         if res = "panic" then pf ~pred:"msg_no_panic" ~kf:"none" ~detail:(kind ^ "_panicked")
       | ["o"; "end"] when not !dead ->
+        let t0 = Sys.time () in
         diff ();
+        let t1 = Sys.time () in
         check_props ();
-        if !mismatches > 40 then dead := true
+        let t2 = Sys.time () in
+        tdiff := !tdiff +. (t1 -. t0); tprops := !tprops +. (t2 -. t1);
+        if !mismatches - !case_mism0 > 40 then dead := true      (* this case has diverged; the next case starts afresh *)
       | "o" :: k :: vs when not !dead ->
         let v = cat vs in
         Hashtbl.replace changed k ();
@@ -424,6 +794,16 @@ let run_prop (prop : string) (path : string) =
              let ap = a ^ ":" ^ p in
              Hashtbl.replace by_pair ap (k :: (try Hashtbl.find by_pair ap with Not_found -> []))
            end;
+           if life_on then begin
+             bump "eval:C07_life";
+             if not (holds_C07_life od) then
+               pf ~pred:"holds_C07_life" ~kf:"none" ~detail:(Printf.sprintf "%s_offer=%s_remaining=%s_amount=%s_open=%s" k (zs od.o_offer) (zs od.o_rem) (zs od.o_amt) (zs od.o_open));
+             (match (try Some (Hashtbl.find known k) with Not_found -> None) with
+              | Some prev ->
+                if not (holds_C07_life_step prev od) then
+                  pf ~pred:"holds_C07_life_step" ~kf:"none" ~detail:(Printf.sprintf "%s_remaining=%s->%s_open=%s->%s" k (zs prev.o_rem) (zs od.o_rem) (zs prev.o_open) (zs od.o_open))
+              | None -> ())
+           end;
            Hashtbl.replace known k od;
            bump ("ordstatus:" ^ zs od.o_status)
          | _ -> ())
@@ -434,4 +814,5 @@ let run_prop (prop : string) (path : string) =
       | ["i"; broken; name] -> bump (if broken = "0" then "modinv:ok" else "modinv:broken:" ^ name)
       | _ -> ()) lines;
   end_case ();
+  if Sys.getenv_opt "LIQRUN_PROFILE" <> None then Printf.eprintf "diff %.1f props %.1f step %.1f\n" !tdiff !tprops !tstep;
   finish ~cases:!cases ~steps:!steps ~nontrivial:!nontrivial
